@@ -610,3 +610,338 @@ Qed.
 
 Theorem inv_reachable s : reachable s -> Inv s.
 Proof. induction 1 as [|s o _ IH HF]; [exact inv_init | exact (inv_step s o IH HF)]. Qed.
+
+(* ------------------------------------------------------------------ isolation *)
+Lemma app_of_put s k a' k' : k' <> k -> app_of (put_app s k a') k' = app_of s k'.
+Proof.
+  intros NE. unfold app_of, put_app. cbn [apps]. rewrite aget_aset.
+  destruct (pair_eqb k' k) eqn:E; [apply pair_eqb_eq in E; contradiction | reflexivity].
+Qed.
+
+Lemma app_of_aset s k a' u r g k' :
+  k' <> k -> app_of (mkSt (aset pair_eqb k a' (apps s)) u r g) k' = app_of s k'.
+Proof.
+  intros NE. unfold app_of. cbn [apps]. rewrite aget_aset.
+  destruct (pair_eqb k' k) eqn:E; [apply pair_eqb_eq in E; contradiction | reflexivity].
+Qed.
+
+Lemma app_of_adel s k u r g k' :
+  k' <> k -> app_of (mkSt (adel pair_eqb k (apps s)) u r g) k' = app_of s k'.
+Proof.
+  intros NE. unfold app_of. cbn [apps]. rewrite aget_adel.
+  destruct (pair_eqb k' k) eqn:E; [apply pair_eqb_eq in E; contradiction | reflexivity].
+Qed.
+
+Lemma iso_classical s k f k' : k' <> k -> app_of (fst (classical s k f)) k' = app_of s k'.
+Proof.
+  intros NE. unfold classical. destruct (aget pair_eqb k (apps s)) as [a|]; [|reflexivity].
+  destruct (f a) as [a' e]. cbn [fst]. apply app_of_put. exact NE.
+Qed.
+
+Lemma iso_qalloc s nd k a v k' : k' <> k -> app_of (fst (do_qalloc s nd k a v)) k' = app_of s k'.
+Proof.
+  intros NE. unfold do_qalloc.
+  destruct (slot (List.length (a_um a)) v) as [i| |]; try (apply app_of_put; exact NE).
+  destruct (nth_error (a_um a) i) as [[q|]|]; try (apply app_of_put; exact NE).
+  destruct (first_unused nd (used s)); [|apply app_of_put; exact NE].
+  cbn [fst]. apply app_of_aset. exact NE.
+Qed.
+
+Lemma iso_qfree s nd k a v k' : k' <> k -> app_of (fst (do_qfree s nd k a v)) k' = app_of s k'.
+Proof.
+  intros NE. unfold do_qfree.
+  destruct (slot (List.length (a_um a)) v) as [i| |]; try (apply app_of_put; exact NE).
+  destruct (nth_error (a_um a) i) as [[q|]|]; try (apply app_of_put; exact NE).
+  destruct (mem2 (nd, q) (used s)); [cbn [fst]; apply app_of_aset; exact NE | apply app_of_put; exact NE].
+Qed.
+
+Lemma iso_keep s nd k a qa ra p info k' :
+  k' <> k -> app_of (fst (do_keep s nd k a qa ra p info)) k' = app_of s k'.
+Proof.
+  intros NE. unfold do_keep.
+  destruct (aget Z.eqb qa (a_arrs a)) as [[|[v|] l]|]; try (apply app_of_put; exact NE).
+  destruct (has_virtual (a_um a) v); [apply app_of_put; exact NE|].
+  destruct (slot (List.length (a_um a)) v) as [i| |]; try (cbn [fst]; apply app_of_aset; exact NE).
+  destruct (nth_error (a_um a) i) as [[q|]|]; cbn [fst]; apply app_of_aset; exact NE.
+Qed.
+
+(* a step of application k (or of the environment) leaves the whole state of every
+   other application -- unit module, registers, arrays, shared memory -- as it was *)
+Theorem isolation s o k' : op_pid o <> Some k' -> app_of (fst (step s o)) k' = app_of s k'.
+Proof.
+  intros NE.
+  destruct o as [nd app n|nd app|nd app v|nd app v|nd app r x|nd app addr len|nd app addr i x
+                |nd app r|nd app addr|nd|nd app v qa ra info]; cbn [op_pid] in NE;
+    try (assert (NE' : k' <> (nd, app)) by (intros ->; apply NE; reflexivity)); cbn [step];
+    try (apply iso_classical; exact NE').
+  - destruct (aget pair_eqb (nd, app) (apps s)); [reflexivity|].
+    destruct (mem2 (nd, app) (shreg s)); [reflexivity|]. cbn [fst]. apply app_of_aset. exact NE'.
+  - destruct (aget pair_eqb (nd, app) (apps s)) as [a|]; [|reflexivity].
+    destruct (remove_all nd (somes (a_um a)) (used s)); cbn [fst]; apply app_of_adel; exact NE'.
+  - destruct (aget pair_eqb (nd, app) (apps s)); [|reflexivity]. apply iso_qalloc. exact NE'.
+  - destruct (aget pair_eqb (nd, app) (apps s)); [|reflexivity]. apply iso_qfree. exact NE'.
+  - destruct (first_unused nd (used s)); reflexivity.
+  - destruct (aget pair_eqb (nd, app) (apps s)) as [a|]; [|reflexivity].
+    destruct (Nat.eqb (List.length info) 10); [|reflexivity].
+    destruct (nth_error info 2); [|reflexivity].
+    destruct (nth_error info 5); [|reflexivity].
+    destruct (nth_error info 6); [|reflexivity].
+    destruct (keep_prefix v qa ra z1 z0 a) as [a' [e|]]; [cbn [fst]; apply app_of_put; exact NE' | apply iso_keep; exact NE'].
+Qed.
+
+(* and the physical qubits another application holds stay marked in use and stay its own *)
+Theorem isolation_qubits s o nd' app' a i p :
+  Inv s -> fresh_delivery s o -> op_pid o <> Some (nd', app') ->
+  app_of s (nd', app') = Some a -> nth_error (a_um a) i = Some (Some p) ->
+  let s' := fst (step s o) in
+  In (nd', p) (used s') /\
+  (forall app2 a2 i2, app_of s' (nd', app2) = Some a2 -> nth_error (a_um a2) i2 = Some (Some p) ->
+                      app2 = app' /\ i2 = i).
+Proof.
+  intros HI HF NE Hk Hn s'. pose proof (inv_step s o HI HF) as (K & I & U & F & G). fold s' in K, I, U, F, G.
+  assert (Hk' : app_of s' (nd', app') = Some a) by (unfold s'; rewrite isolation; assumption).
+  split.
+  - apply U. left. exists app', a, i. auto.
+  - intros app2 a2 i2 H2 Hn2. exact (I nd' app2 a2 i2 app' a i p H2 Hk' Hn2 Hn).
+Qed.
+
+(* ------------------------------------------------------------------ used = image when nothing is in flight *)
+Theorem used_is_image s :
+  Inv s -> resv s = [] -> forall nd p, In (nd, p) (used s) <-> mapped s nd p.
+Proof.
+  intros (_ & _ & U & _ & _) E nd p. rewrite (U nd p), E. cbn [In]. tauto.
+Qed.
+
+(* ------------------------------------------------------------------ stop / re-register *)
+Theorem stop_releases s nd app a :
+  Inv s -> app_of s (nd, app) = Some a ->
+  let r := step s (Stop nd app) in
+  snd r = Done /\
+  app_of (fst r) (nd, app) = None /\
+  ~ In (nd, app) (shreg (fst r)) /\
+  (forall x, In x (used (fst r)) <->
+             In x (used s) /\ ~ (fst x = nd /\ exists i, nth_error (a_um a) i = Some (Some (snd x)))) /\
+  resv (fst r) = resv s.
+Proof.
+  intros HI Hk r. unfold r. cbn [step]. unfold app_of in Hk. rewrite Hk.
+  destruct (stop_used_total s nd app a HI Hk) as [u Hu]. rewrite Hu. cbn [fst snd].
+  split; [reflexivity|]. split; [|split; [|split; [|reflexivity]]].
+  - unfold app_of. cbn [apps]. rewrite aget_adel, pair_eqb_refl. reflexivity.
+  - cbn [shreg]. rewrite In_rem2. tauto.
+  - intros x. cbn [used]. rewrite (remove_all_spec _ _ _ _ Hu x), In_somes. tauto.
+Qed.
+
+Theorem register_ok s nd app n :
+  Inv s -> app_of s (nd, app) = None ->
+  let r := step s (Init nd app n) in
+  snd r = Done /\ app_of (fst r) (nd, app) = Some (fresh_app n).
+Proof.
+  intros (_ & _ & _ & _ & G) Hk r. unfold r. cbn [step]. unfold app_of in Hk. rewrite Hk.
+  destruct (mem2 (nd, app) (shreg s)) eqn:E.
+  - apply mem2_In in E. apply G in E. unfold app_of in E. contradiction.
+  - cbn [fst snd]. split; [reflexivity|]. unfold app_of. cbn [apps]. rewrite aget_aset, pair_eqb_refl. reflexivity.
+Qed.
+
+Theorem reregister_ok s nd app a n :
+  Inv s -> app_of s (nd, app) = Some a ->
+  let s1 := fst (step s (Stop nd app)) in
+  let r := step s1 (Init nd app n) in
+  snd r = Done /\ app_of (fst r) (nd, app) = Some (fresh_app n).
+Proof.
+  intros HI Hk s1. apply register_ok.
+  - apply inv_stop. exact HI.
+  - exact (proj1 (proj2 (stop_releases s nd app a HI Hk))).
+Qed.
+
+(* ------------------------------------------------------------------ the model-only faults never happen *)
+Theorem no_internal_fault s o :
+  Inv s -> fresh_delivery s o ->
+  snd (step s o) <> Fault EUsedMissing /\ snd (step s o) <> Fault EFuel.
+Proof.
+  intros HI HF.
+  assert (C : forall k f, (forall a, snd (f a) <> Some EUsedMissing /\ snd (f a) <> Some EFuel) ->
+                          snd (classical s k f) <> Fault EUsedMissing /\ snd (classical s k f) <> Fault EFuel).
+  { intros k f Hf. unfold classical. destruct (aget pair_eqb k (apps s)) as [a|]; [|split; discriminate].
+    specialize (Hf a). destruct (f a) as [a' [e|]]; cbn [snd] in *; [|split; discriminate].
+    destruct Hf. split; congruence. }
+  destruct o as [nd app n|nd app|nd app v|nd app v|nd app r x|nd app addr len|nd app addr i x
+                |nd app r|nd app addr|nd|nd app v qa ra info]; cbn [step].
+  - destruct (aget pair_eqb (nd, app) (apps s)); [split; discriminate|].
+    destruct (mem2 (nd, app) (shreg s)); split; discriminate.
+  - destruct (aget pair_eqb (nd, app) (apps s)) as [a|] eqn:Hk; [|split; discriminate].
+    destruct (stop_used_total s nd app a HI Hk) as [u Hu]. rewrite Hu. split; discriminate.
+  - destruct (aget pair_eqb (nd, app) (apps s)) as [a|] eqn:Hk; [|split; discriminate].
+    unfold do_qalloc. destruct (slot _ v) as [i| |]; try (split; discriminate).
+    destruct (nth_error _ i) as [[q|]|]; try (split; discriminate).
+    pose proof (first_unused_total nd (used s)) as T.
+    destruct (first_unused nd (used s)); [split; discriminate | contradiction].
+  - destruct (aget pair_eqb (nd, app) (apps s)) as [a|] eqn:Hk; [|split; discriminate].
+    unfold do_qfree. cbn [i_set with_regs a_um].
+    destruct (slot _ v) as [i| |]; try (split; discriminate).
+    destruct (nth_error (a_um a) i) as [[q|]|] eqn:En; try (split; discriminate).
+    destruct HI as (_ & _ & U & _ & _).
+    assert (Hin : In (nd, q) (used s)) by (apply U; left; exists app, a, i; auto).
+    rewrite (proj2 (mem2_In _ _) Hin). split; discriminate.
+  - apply C. intros a. split; discriminate.
+  - apply C. intros a. unfold i_array. destruct (aget pair_eqb R0 _); split; discriminate.
+  - apply C. intros a. unfold i_store. destruct (aget pair_eqb R0 _); [|split; discriminate].
+    destruct (aget Z.eqb addr _); [|split; discriminate]. destruct (Nat.ltb i _); split; discriminate.
+  - apply C. intros a. unfold i_ret_reg. destruct (aget pair_eqb r _); split; discriminate.
+  - apply C. intros a. unfold i_ret_arr. destruct (aget Z.eqb addr _); split; discriminate.
+  - pose proof (first_unused_total nd (used s)) as T.
+    destruct (first_unused nd (used s)); [split; discriminate | contradiction].
+  - destruct (aget pair_eqb (nd, app) (apps s)) as [a|]; [|split; discriminate].
+    destruct (Nat.eqb (List.length info) 10); [|split; discriminate].
+    destruct (nth_error info 2); [|split; discriminate].
+    destruct (nth_error info 5); [|split; discriminate].
+    destruct (nth_error info 6); [|split; discriminate].
+    assert (P : forall e, snd (keep_prefix v qa ra z1 z0 a) = Some e -> e <> EUsedMissing /\ e <> EFuel).
+    { intros e. unfold keep_prefix, bind, i_array, i_store.
+      repeat match goal with
+             | |- context [match aget ?q ?k ?l with _ => _ end] => destruct (aget q k l)
+             | |- context [if ?c then _ else _] => destruct c
+             end; cbn [snd]; intros H; inversion H; split; discriminate. }
+    destruct (keep_prefix v qa ra z1 z0 a) as [a' [e|]].
+    + cbn [snd] in *. destruct (P e eq_refl). split; congruence.
+    + unfold do_keep. destruct (aget Z.eqb qa (a_arrs a')) as [[|[v'|] l]|]; try (split; discriminate).
+      destruct (has_virtual _ v'); [split; discriminate|].
+      destruct (slot _ v') as [i| |]; try (split; discriminate).
+      destruct (nth_error _ i) as [[q|]|]; split; discriminate.
+Qed.
+
+(* the pool hands out the least unused physical qubit (what the code's count(0) loop does) *)
+Lemma first_unused_from_least fuel nd p u q :
+  first_unused_from fuel nd p u = Some q -> forall j, p <= j < q -> In (nd, j) u.
+Proof.
+  revert p. induction fuel as [|f IH]; intros p; cbn [first_unused_from]; [discriminate|].
+  destruct (mem2 (nd, p) u) eqn:E.
+  - intros H j Hj. destruct (Z.eq_dec j p) as [->|NE]; [apply mem2_In; exact E|].
+    apply (IH _ H). lia.
+  - intros H j Hj. inversion H; subst. lia.
+Qed.
+
+Theorem first_unused_least nd u q :
+  first_unused nd u = Some q -> 0 <= q /\ ~ In (nd, q) u /\ forall j, 0 <= j < q -> In (nd, j) u.
+Proof.
+  intros H. destruct (first_unused_from_sound _ _ _ _ _ H) as [H1 H2].
+  split; [exact H2|]. split; [exact H1|]. exact (first_unused_from_least _ _ _ _ _ H).
+Qed.
+
+(* ------------------------------------------------------------------ without the delivery contract *)
+Definition bad_history : list op :=
+  [Init 0 0 2; Init 0 1 2; QAlloc 0 0 0].
+Definition bad_info : list Z := [0; 7; 0; 1; 0; 0; 1; 3; 4; 1].     (* a keep response naming physical qubit 0 *)
+Definition bad_keep : op := Keep 0 1 0 0 1 bad_info.
+
+Lemma bad_reachable : reachable (run init_state bad_history).
+Proof.
+  unfold bad_history. cbn [run].
+  apply reach_step; [|exact I]. apply reach_step; [|exact I]. apply reach_step; [|exact I]. apply reach_init.
+Qed.
+
+(* a keep response that names an already mapped physical qubit double-maps it;
+   the first free then un-marks it and the second free hits set.remove -> KeyError *)
+Theorem inv_without_fresh_refuted :
+  exists s o, reachable s /\ ~ fresh_delivery s o /\ snd (step s o) = Done /\ ~ Inv (fst (step s o)) /\
+              snd (step (run (fst (step s o)) [QFree 0 0 0]) (QFree 0 1 0)) = Fault EUsedMissing.
+Proof.
+  exists (run init_state bad_history), bad_keep.
+  split; [exact bad_reachable|]. split; [|split; [vm_compute; reflexivity|split]].
+  - intros H. specialize (H 0 eq_refl). vm_compute in H. exact H.
+  - intros (_ & I & _).
+    assert (E : 0 = 1 /\ O = O).
+    { eapply (I 0 0 _ O 1 _ O 0); vm_compute; reflexivity. }
+    destruct E as [E _]. discriminate.
+  - vm_compute. reflexivity.
+Qed.
+
+(* ------------------------------------------------------------------ other nodes, other registry keys *)
+Definition same_elsewhere (nd : Z) (s s' : state) : Prop :=
+  forall x, fst x <> nd -> (In x (used s') <-> In x (used s)) /\ (In x (resv s') <-> In x (resv s)).
+
+Lemma se_refl nd s : same_elsewhere nd s s.
+Proof. intros x _. tauto. Qed.
+
+Lemma se_put nd s k a : same_elsewhere nd s (put_app s k a).
+Proof. intros x _. cbn. tauto. Qed.
+
+Lemma se_classical nd s k f : same_elsewhere nd s (fst (classical s k f)).
+Proof.
+  unfold classical. destruct (aget pair_eqb k (apps s)) as [a|]; [|apply se_refl].
+  destruct (f a). apply se_put.
+Qed.
+
+(* the pool, the reserved set and the used set of another node are not touched *)
+Theorem isolation_nodes s o : same_elsewhere (op_node o) s (fst (step s o)).
+Proof.
+  destruct o as [nd app n|nd app|nd app v|nd app v|nd app r x|nd app addr len|nd app addr i x
+                |nd app r|nd app addr|nd|nd app v qa ra info]; cbn [op_node step];
+    try apply se_classical.
+  - destruct (aget pair_eqb (nd, app) (apps s)); [apply se_refl|].
+    destruct (mem2 (nd, app) (shreg s)); [apply se_refl|]. intros x _. cbn. tauto.
+  - destruct (aget pair_eqb (nd, app) (apps s)) as [a|]; [|apply se_refl].
+    destruct (remove_all nd (somes (a_um a)) (used s)) as [u|] eqn:Hu; [|intros x _; cbn; tauto].
+    intros x Hx. cbn [fst used resv]. rewrite (remove_all_spec _ _ _ _ Hu x). tauto.
+  - destruct (aget pair_eqb (nd, app) (apps s)) as [a|]; [|apply se_refl].
+    unfold do_qalloc. destruct (slot _ v) as [i| |]; try apply se_put.
+    destruct (nth_error _ i) as [[q|]|]; try apply se_put.
+    destruct (first_unused nd (used s)) as [p|]; [|apply se_put].
+    intros x Hx. cbn [fst used resv In]. split; [|tauto]. split; [intros [<-|H]; [contradiction Hx; reflexivity | exact H] | auto].
+  - destruct (aget pair_eqb (nd, app) (apps s)) as [a|]; [|apply se_refl].
+    unfold do_qfree. destruct (slot _ v) as [i| |]; try apply se_put.
+    destruct (nth_error _ i) as [[q|]|]; try apply se_put.
+    destruct (mem2 (nd, q) (used s)); [|apply se_put].
+    intros x Hx. cbn [fst used resv]. rewrite In_rem2. split; [|tauto].
+    split; [tauto|]. intros H. split; [exact H|]. intros ->. apply Hx. reflexivity.
+  - destruct (first_unused nd (used s)) as [p|]; [|apply se_refl].
+    intros x Hx. cbn [fst used resv In].
+    split; (split; [intros [<-|H]; [contradiction Hx; reflexivity | exact H] | auto]).
+  - destruct (aget pair_eqb (nd, app) (apps s)) as [a|]; [|apply se_refl].
+    destruct (Nat.eqb (List.length info) 10); [|apply se_refl].
+    destruct (nth_error info 2) as [p|]; [|apply se_refl].
+    destruct (nth_error info 5); [|apply se_refl].
+    destruct (nth_error info 6); [|apply se_refl].
+    destruct (keep_prefix v qa ra z0 z a) as [a' [e|]]; [apply se_put|].
+    assert (A : forall x, fst x <> nd -> (In x (add2 (nd, p) (used s)) <-> In x (used s))).
+    { intros x Hx. rewrite In_add2. split; [intros [->|H]; [contradiction Hx; reflexivity | exact H] | auto]. }
+    unfold do_keep. destruct (aget Z.eqb qa (a_arrs a')) as [[|[v'|] l]|]; try apply se_put.
+    destruct (has_virtual _ v'); [apply se_put|].
+    destruct (slot _ v') as [i| |]; try (intros x Hx; cbn [fst used resv]; rewrite (A x Hx); tauto).
+    destruct (nth_error _ i) as [[q|]|]; try (intros x Hx; cbn [fst used resv]; rewrite (A x Hx); tauto).
+    intros x Hx. cbn [fst used resv]. rewrite (A x Hx), In_rem2. split; [tauto|].
+    split; [tauto|]. intros H. split; [exact H|]. intros ->. apply Hx. reflexivity.
+Qed.
+
+(* the SharedMemoryManager entry of every other (node, app) key is left as it was *)
+Theorem isolation_registry s o k' :
+  op_pid o <> Some k' -> (In k' (shreg (fst (step s o))) <-> In k' (shreg s)).
+Proof.
+  intros NE.
+  assert (C : forall k f, shreg (fst (classical s k f)) = shreg s).
+  { intros k f. unfold classical. destruct (aget pair_eqb k (apps s)) as [a|]; [|reflexivity]. destruct (f a). reflexivity. }
+  destruct o as [nd app n|nd app|nd app v|nd app v|nd app r x|nd app addr len|nd app addr i x
+                |nd app r|nd app addr|nd|nd app v qa ra info]; cbn [op_pid] in NE;
+    try (assert (NE' : k' <> (nd, app)) by (intros ->; apply NE; reflexivity)); cbn [step];
+    try (rewrite C; tauto).
+  - destruct (aget pair_eqb (nd, app) (apps s)); [tauto|].
+    destruct (mem2 (nd, app) (shreg s)); [tauto|]. cbn [fst shreg In]. split; [intros [E|H]; [congruence | exact H] | auto].
+  - destruct (aget pair_eqb (nd, app) (apps s)) as [a|]; [|tauto].
+    destruct (remove_all nd (somes (a_um a)) (used s)); cbn [fst shreg]; [rewrite In_rem2|]; tauto.
+  - destruct (aget pair_eqb (nd, app) (apps s)) as [a|]; [|tauto].
+    unfold do_qalloc. destruct (slot _ v) as [i| |]; try tauto.
+    destruct (nth_error _ i) as [[q|]|]; try tauto. destruct (first_unused nd (used s)); tauto.
+  - destruct (aget pair_eqb (nd, app) (apps s)) as [a|]; [|tauto].
+    unfold do_qfree. destruct (slot _ v) as [i| |]; try tauto.
+    destruct (nth_error _ i) as [[q|]|]; try tauto. destruct (mem2 (nd, q) (used s)); tauto.
+  - destruct (first_unused nd (used s)); tauto.
+  - destruct (aget pair_eqb (nd, app) (apps s)) as [a|]; [|tauto].
+    destruct (Nat.eqb (List.length info) 10); [|tauto].
+    destruct (nth_error info 2) as [p|]; [|tauto].
+    destruct (nth_error info 5); [|tauto].
+    destruct (nth_error info 6); [|tauto].
+    destruct (keep_prefix v qa ra z0 z a) as [a' [e|]]; [tauto|].
+    unfold do_keep. destruct (aget Z.eqb qa (a_arrs a')) as [[|[v'|] l]|]; try tauto.
+    destruct (has_virtual _ v'); [tauto|].
+    destruct (slot _ v') as [i| |]; try tauto.
+    destruct (nth_error _ i) as [[q|]|]; tauto.
+Qed.
